@@ -137,6 +137,11 @@ def disc(alias, mapping, *alts, **o):
     return P("disc", *alts, alias=alias, mapping=tuple(mapping), **o)
 
 
+def subprim(name, s):
+    """class <name>(<primitive>): pass"""
+    return P("sub", s, name=name)
+
+
 def undef(s):
     """Union[s, UndefinedType]"""
     return P("undef", s)
@@ -169,7 +174,7 @@ def render(s: Sp) -> str:
         return k
     if k == "ref":
         return "@" + s.opt("name")
-    if k in ("enum", "newtype", "obj"):
+    if k in ("enum", "newtype", "obj", "sub"):
         return f"{k}:{s.opt('name')}"
     if k == "lit":
         return "lit" + repr(list(s.a))
@@ -200,7 +205,7 @@ def named(s: Sp) -> Dict[str, Sp]:
     def rec(x: Sp):
         for c in children(x):
             rec(c)
-        if x.k in ("obj", "enum", "newtype"):
+        if x.k in ("obj", "enum", "newtype", "sub"):
             n = x.opt("name")
             if n in out and out[n] != x:
                 raise ValueError(f"two different definitions named {n}")
@@ -265,7 +270,7 @@ def tyexpr(s: Sp) -> str:
         return "Literal[" + ", ".join(repr(v) for v in a) + "]"
     if k == "obj" and s.opt("texpr"):
         return s.opt("texpr")
-    if k in ("enum", "newtype", "obj"):
+    if k in ("enum", "newtype", "obj", "sub"):
         return s.opt("name")
     if k == "ref":
         return repr(s.opt("name"))
@@ -366,6 +371,8 @@ def source(root: Sp, extra_src: str = "") -> str:
             lines.append(f"class {name}(Enum):")
             for i, v in enumerate(d.a):
                 lines.append(f"    m{i} = {v!r}")
+        elif d.k == "sub":
+            lines.append(f"class {name}({tyexpr(d.a[0])}):\n    pass")
         elif d.k == "newtype":
             lines.append(f"{name} = NewType({name!r}, {tyexpr(d.a[0])})")
             if d.opt("schema"):
